@@ -273,3 +273,32 @@ PROPS["C20"] = dict(
     assumptions=["offsets returned by the pattern are positive until it stops (a non-positive offset ends the hatching)",
                  "f32 addition is monotone (a <= a + o for o > 0)"],
 )
+
+PROPS["C19"] = dict(
+    level="proof",
+    level_text="Theorems (Props/C19.v) about statement-level models of the sampler's cursor logic and of the walker's edge "
+               "loop. Sampler: for every well-formed cumulative table, every starting cursor, every distance in [0, length] "
+               "and whichever branch the cost heuristic takes, move_cursor terminates, never indexes out of range and ends in "
+               "bounds; the linear and binary branches give the same cursor; any SEQUENCE of queries on one sampler (cursor "
+               "carried along) always selects a real segment, never a Begin row (the unreachable!() cannot be reached on the "
+               "repaired tree); with strictly increasing distances the in-bounds cursor is unique (history independence). "
+               "Walker: the k-th event is reported at start + p_0 + ... + p_(k-1) and IS at that distance along the "
+               "polyline, with at most one event per requested distance. Models compared with the code through hooks "
+               "(table, cursor) on query sequences and exact 3-4-5 polylines. Positions on curves, attribute lerp, length "
+               "= flattened length, and split additivity are validated per run against an f64 arc-length reference.",
+    level_note="Trusted: Coq kernel; position on CURVED segments relies on flattening + linear t interpolation (validated, "
+               "known finding K7 for nearly collinear control points); f32 rounding in t(dist) not modelled in the theorems.",
+    technique="Coq proof (cursor/table invariants, walker loop invariant) + differential correspondence via hooks",
+    coq_targets=["theories/Props/C19.vo", "theories/Run/C19.vo"],
+    props_file="theories/Props/C19.v",
+    props_module="Props.C19",
+    harness=[dict(sub="c19", profile="debug")],
+    rule="paths: polylines with Pythagorean steps (integer edge lengths), 1..4 sub-paths, single-point and closed sub-paths, "
+         "0 or 2 attributes; every third path curved; per path a sequence of 1..12 sample queries (0, length, table "
+         "entries, half-integers, random incl. out of range) on one sampler, fresh-sampler comparison, three split ranges, "
+         "one walker run with a random pattern and start; non-trivial = table with more than 2 rows",
+    trusted_base=["Model/Measure.v follows PathSampler::{in_bounds, move_cursor, t, sample_impl} and PathWalker::edge; hooks "
+                  "verif_table / verif_cursor expose the table and the cursor"],
+    assumptions=["walker pattern distances are positive (a non-positive distance makes PathWalker::edge loop forever - "
+                 "documented precondition)", "distances are clamped to [0, length] before the cursor moves (as sample_impl does)"],
+)
